@@ -200,7 +200,8 @@ Inductive hop :=
 | OStep (t : Z)                  (* thread t runs its next label *)
 | ORun (t : Z)                   (* thread t runs all its remaining labels *)
 | OFlush                         (* Storage.Flush() *)
-| OSnap (ids : list Z).          (* the whole cache in key order + LoadRegion of these ids *)
+| OSnap (ids : list Z)           (* the whole cache in key order + LoadRegion of these ids *)
+| OSaveRaw (r : region).         (* Storage.SaveRegion called by the harness itself (ballast in the write-back batch) *)
 
 Record cdig := CDig { d_id : Z; d_start : key; d_end : key; d_ver : Z; d_conf : Z; d_term : Z; d_leader : Z; d_stamp : Z }.
 Record sdig := SDig { sd_id : Z; sd_start : key; sd_end : key; sd_ver : Z; sd_conf : Z }.
@@ -229,6 +230,7 @@ Definition h_step (h : hstate) (o : hop) : hstate * hobs :=
   | ORun t => let '(h', res) := finish (S (fuel_of h t)) h t in (h', HoRes res)
   | OFlush => (HState (h_cache h) (flush (h_store h)) (h_threads h), HoUnit)
   | OSnap ids => (h, snapshot h ids)
+  | OSaveRaw r => (HState (h_cache h) (save_region (h_store h) r) (h_threads h), HoUnit)
   end.
 
 Fixpoint h_run (h : hstate) (ops : list hop) : list hobs :=
